@@ -43,6 +43,13 @@ TEMPLATES = [
     '_A = 5\n_B = 6\nvalue_one = {L}, {L}, {L}, {L}, _A\ndef function_one(A, B=2):\n    return {L}, {L}, A, B, _B\n',
     'class OuterClass:\n    class InnerClass:\n        _A = {L}\n        _B = {L}\n    A = {L}\n    def method_one(self, _A={L}):\n        return _A, {L}, {L}\n',
     'def outer_function():\n    _A = {L}\n    def inner_function():\n        nonlocal _A\n        _A = {L}\n        return {L}, {L}\n    return inner_function\n',
+    # every use lies inside a class nested in other classes / functions: the assignment must go to a function or the module, never to a class body
+    'class OuterClass:\n    class InnerClass:\n        def method_one(self):\n            return {L}, {L}, {L}\n        def method_two(self):\n            return {L}, {L}\n',
+    'def outer_function():\n    class OuterClass:\n        class InnerClass:\n            attribute_one = {L}\n            def method_one(self):\n                return {L}, {L}, {L}\n    return OuterClass\n',
+    'class OuterClass:\n    class MiddleClass:\n        class InnerClass:\n            values_list = [{L} for comp_item in ({L}, {L})]\n            function_value = lambda self: ({L}, {L})\n',
+    'class OuterClass:\n    def method_one(self):\n        class LocalClass:\n            attribute_one = {L}\n            def method_two(self):\n                return {L}, {L}, {L}\n        return LocalClass\n    def method_three(self):\n        return 0\n',
+    'class OuterClass:\n    class InnerClass:\n        attribute_one = {L}\n        attribute_two = ({L}, {L})\n    class SiblingClass:\n        def method_one(self, first_param={L}):\n            return {L}, first_param\n',
+    'class OuterClass:\n    class InnerClass:\n        async def method_one(self):\n            return [{L} async for comp_item in self.items()], {L}, {L}\n        def method_two(self):\n            return {L}\n',
 ]
 
 
